@@ -113,115 +113,148 @@ def protocol(P, R):
         R.holds('R-REORD', q, 'first attempt in context -> disable '
                 'requests -> reorder -> retry in context -> re-arm -> '
                 'return')
-    # context manager
+    # context manager: interpreted over every state of a small model
+    # (ddverif/interp.py) - how its conditions are written does not matter
+    from .. import interp
     ent = P.func('dd.bdd._ReorderingContext.__enter__')
     ex = P.func('dd.bdd._ReorderingContext.__exit__')
-    save = None
-    setflag = None
-    for i, st in enumerate(ent.node.body):
-        if isinstance(st, ast.Assign):
-            if au.src(st.value).replace(' ', '') == \
-                    'self.bdd._reordering_context' and save is None:
-                save = (i, au.src(st.targets[0]))
-            if au.src(st.targets[0]).replace(' ', '') == \
-                    'self.bdd._reordering_context' and isinstance(
-                        st.value, ast.Constant) and st.value.value is True:
-                setflag = i
-    if save is not None and setflag is not None and save[0] < setflag:
-        R.holds('R-REORD', ent.qualname, 'saves the flag, then sets it')
-        saved_in = save[1]
+    SIGNAL = interp.Sym('_NeedsReordering')
+    OTHER = interp.Sym('ValueError')
+    ex_params = [p for p in ex.params if p != 'self']
+    problems_enter, problems_exit = [], []
+    undecided = None
+    n_models = 0
+    for outer in (False, True):          # flag when the context is entered
+        env = {'self.bdd._reordering_context': outer,
+               'self.nested': None, 'self.bdd': interp.Sym('bdd'),
+               '_NeedsReordering': SIGNAL}
+        try:
+            out, m = interp.run_function(ent.node, env)
+        except interp.Unknown as e:
+            undecided = f'__enter__: {e}'
+            break
+        if m.env.get('self.bdd._reordering_context') is not True:
+            problems_enter.append('the flag is not set while inside')
+        saved_key = [k for k, v in m.env.items()
+                     if k.startswith('self.') and k not in (
+                         'self.bdd._reordering_context', 'self.bdd')
+                     and v is outer]
+        if not saved_key:
+            problems_enter.append(
+                'the value the flag had before is not kept')
+        for exc in (None, SIGNAL, OTHER):
+            n_models += 1
+            env2 = dict(m.env)
+            for prm, val in zip(ex_params, (exc, None, None)):
+                env2[prm] = val
+            try:
+                out2, m2 = interp.run_function(ex.node, env2)
+            except interp.Unknown as e:
+                undecided = f'__exit__: {e}'
+                break
+            if out2[0] == 'raise':
+                problems_exit.append(('restore', f'__exit__ raises '
+                                      f'{out2[1]} itself'))
+                continue
+            if m2.env.get('self.bdd._reordering_context') is not outer:
+                problems_exit.append((
+                    'restore',
+                    'the nesting flag is not put back to what it was '
+                    f'before the context (entered with {outer}, exception '
+                    f'{exc})'))
+            suppressed = bool(out2[1]) if out2[0] == 'return' else False
+            want = (exc is SIGNAL) and not outer
+            if suppressed and not want:
+                problems_exit.append((
+                    'suppress',
+                    f'an exception ({exc}) is swallowed when the context '
+                    f'was entered with the flag {outer}: only the '
+                    'reordering signal, and only at the outermost level, '
+                    'may be'))
+            if want and not suppressed:
+                problems_exit.append((
+                    'suppress',
+                    'the reordering signal is not suppressed at the '
+                    'outermost level: it reaches the caller'))
+        if undecided:
+            break
+    if undecided:
+        R.undecided('R-REORD', ex.qualname, 'context manager', undecided)
     else:
-        saved_in = 'self.nested'
-        R.violation('R-REORD', 'context', ent.qualname, 'enter',
-                    '__enter__ does not save the nesting flag before '
-                    'setting it', unit=ent.unit.rel, line=ent.lineno)
-    body = [st for st in ex.node.body if not (
-        isinstance(st, ast.Expr) and isinstance(st.value, ast.Constant))]
-    restore = bool(body) and isinstance(body[0], ast.Assign) and au.src(
-        body[0].targets[0]).replace(' ', '') == \
-        'self.bdd._reordering_context' and au.src(
-            body[0].value).replace(' ', '') == saved_in.replace(' ', '')
-    if restore:
-        R.holds('R-REORD', ex.qualname,
-                'the saved flag is restored by the first statement (on '
-                'every exit, normal or exceptional)')
-    else:
-        R.violation(
-            'R-REORD', 'context', ex.qualname, 'restore',
-            '__exit__ does not restore the nesting flag as its first '
-            'statement: after an exception the manager stays marked as '
-            'inside a decorated call and reordering is never served again',
-            unit=ex.unit.rel, line=ex.lineno)
-    # suppression only for the signal at the outermost level
-
-    def conjuncts(e, depth=0):
-        if isinstance(e, ast.BoolOp) and isinstance(e.op, ast.And):
-            out = set()
-            for v in e.values:
-                out |= conjuncts(v, depth)
-            return out
-        if isinstance(e, ast.Name) and depth < 4:
-            defs = [n for n in au.walk_no_defs(ex.node)
-                    if isinstance(n, ast.Assign) and au.is_name(
-                        n.targets[0], e.id)]
-            if len(defs) == 1:
-                return conjuncts(defs[0].value, depth + 1)
-        return {au.src(e).replace(' ', '').replace('(', '').replace(
-            ')', '')}
-    truthy = [n for n in au.walk_no_defs(ex.node)
-              if isinstance(n, ast.Return) and n.value is not None
-              and not (isinstance(n.value, ast.Constant)
-                       and not n.value.value)]
-    need = {'ex_typeis_NeedsReordering', 'not' + saved_in.replace(' ', '')}
-    bad = []
-    for r in truthy:
-        conds = set()
-        p = r
-        while getattr(p, '_parent', None) is not None and \
-                p._parent is not ex.node:
-            par = p._parent
-            if isinstance(par, ast.If) and p in par.body:
-                conds |= conjuncts(par.test)
-            p = par
-        if isinstance(r.value, ast.Constant):
-            pass
+        if problems_enter:
+            R.violation('R-REORD', 'context', ent.qualname, 'enter',
+                        '; '.join(sorted(set(problems_enter))),
+                        unit=ent.unit.rel, line=ent.lineno)
         else:
-            conds |= conjuncts(r.value)
-        if not need <= conds:
-            bad.append((r, conds))
-    if truthy and not bad:
-        R.holds('R-REORD', ex.qualname,
-                'suppresses only _NeedsReordering, only at the outermost '
-                'level')
-    elif not truthy:
-        R.violation(
-            'R-REORD', 'context', ex.qualname, 'suppress',
-            '__exit__ never suppresses the reordering signal: it reaches '
-            'the caller', unit=ex.unit.rel, line=ex.lineno)
-    else:
-        R.violation(
-            'R-REORD', 'context', ex.qualname, 'suppress',
-            '__exit__ can suppress an exception under the condition '
-            f'{sorted(bad[0][1])}, which does not imply '
-            f'{sorted(need)}: other exceptions are swallowed or nested '
-            'calls serve requests', unit=ex.unit.rel,
-            line=bad[0][0].lineno)
-    # the request: disabled when _last_len is None, raised from the first
-    # statement of find_or_add
+            R.holds('R-REORD', ent.qualname,
+                    'saves the flag, then sets it (both states)')
+        for sub in ('restore', 'suppress'):
+            msgs = sorted({m for k, m in problems_exit if k == sub})
+            if msgs:
+                R.violation(
+                    'R-REORD', 'context', ex.qualname, sub,
+                    '; '.join(msgs) + (
+                        ': after an exception the manager stays marked as '
+                        'inside a decorated call and reordering is never '
+                        'served again' if sub == 'restore' else ''),
+                    unit=ex.unit.rel, line=ex.lineno)
+            else:
+                R.holds('R-REORD', ex.qualname,
+                        ('the saved flag is restored on every exit'
+                         if sub == 'restore' else
+                         'suppresses only _NeedsReordering, only at the '
+                         f'outermost level') + f' ({n_models} models)')
+    # the request: raised exactly when enabled and the threshold is
+    # reached
     rq = P.func('dd.bdd._request_reordering')
-    raises = [n for n in au.walk_no_defs(rq.node)
-              if isinstance(n, ast.Raise)]
-    guard = [n for n in au.walk_no_defs(rq.node) if isinstance(n, ast.If)
-             and 'bdd._last_lenisNone' in au.src(n.test).replace(' ', '')
-             and any(isinstance(b, ast.Return) for b in n.body)]
-    if raises and guard and guard[0].lineno < min(
-            r.lineno for r in raises):
-        R.holds('R-REORD', rq.qualname, 'no request while disabled')
+    prm = rq.params[0] if rq.params else 'bdd'
+    fac = P.unit('dd.bdd').tree
+    factor = None
+    for st in fac.body:
+        if isinstance(st, ast.Assign) and au.is_name(
+                st.targets[0], 'REORDER_FACTOR'):
+            factor = au.const_int(st.value)
+        if isinstance(st, ast.AnnAssign) and au.is_name(
+                st.target, 'REORDER_FACTOR') and st.value is not None:
+            factor = au.const_int(st.value)
+    bad = None
+    und = None
+    nm = 0
+    if factor is None:
+        und = 'REORDER_FACTOR is not an integer constant'
     else:
-        R.violation('R-REORD', 'request', rq.qualname, 'disabled',
-                    'requests can be raised although `_last_len is None` '
-                    '(or are never raised)',
-                    unit=rq.unit.rel, line=rq.lineno)
+        for last in (None, 1, 2, 3):
+            for size in range(1, 9):
+                nm += 1
+                env = {prm: tuple(range(size)),
+                       f'{prm}._last_len': last,
+                       'REORDER_FACTOR': factor}
+                try:
+                    out, m = interp.run_function(rq.node, env)
+                except interp.Unknown as e:
+                    und = str(e)
+                    break
+                raised = out[0] == 'raise'
+                want = last is not None and size >= factor * last
+                if raised != want and bad is None:
+                    bad = (last, size, raised)
+            if und:
+                break
+    if und:
+        R.undecided('R-REORD', rq.qualname, 'request', und)
+    elif bad:
+        last, size, raised = bad
+        R.violation(
+            'R-REORD', 'request', rq.qualname, 'disabled',
+            f'with _last_len = {last} and {size} nodes a request is '
+            + ('raised' if raised else 'not raised')
+            + ': requests are due exactly when reordering is enabled '
+            f'(_last_len is not None) and len(bdd) >= {factor} * '
+            '_last_len', unit=rq.unit.rel, line=rq.lineno)
+    else:
+        R.holds('R-REORD', rq.qualname,
+                f'a request is raised exactly when enabled and the '
+                f'threshold is reached ({nm} models)')
     foa = P.func(TARGET)
     first = [s for s in foa.node.body if not (
         isinstance(s, ast.Expr) and isinstance(s.value, ast.Constant))][0]
